@@ -193,7 +193,7 @@ int main(int argc, char **argv) {
     }
     for (int i = 0; i < 200; ++i) fromFile(a.corpus + "/case" + std::to_string(i) + ".txt", "c" + std::to_string(i), "corpus");
   }
-  long long n = a.thorough() ? 40000 : (a.search() ? 15000 : 1500);
+  long long n = a.thorough() ? 20000 : (a.search() ? 15000 : 1500);
   for (long long i = 0; i < n; ++i) {
     if (a.only >= 0 && i != a.only) continue;
     vh::Rng g = vh::Rng::forCase(a.seed, i);
